@@ -35,6 +35,7 @@ fn main() {
     };
     let mut seed: u64 = std::env::var("VERIF_SEED").ok().and_then(|s| s.trim().parse::<i128>().ok()).map(|v| v as u64).unwrap_or(0);
     let mut replay: Option<PathBuf> = None;
+    let mut isolated: Option<PathBuf> = None;
     let mut root = PathBuf::from(std::env::var("VERIF_ROOT").unwrap_or_else(|_| "/verif".into()));
     let mut profile = String::from("checked");
     let mut i = 2;
@@ -51,6 +52,10 @@ fn main() {
             "--replay" => {
                 i += 1;
                 replay = Some(PathBuf::from(&args[i]));
+            }
+            "--isolated" => {
+                i += 1;
+                isolated = Some(PathBuf::from(&args[i]));
             }
             "--root" => {
                 i += 1;
@@ -75,6 +80,14 @@ fn main() {
     let ctx = Arc::new(Ctx::new(&id, tier, seed, root, &profile));
     if let Some(file) = replay {
         std::process::exit(props::replay_file(&ctx, prop, &file, true));
+    }
+    if let Some(file) = isolated {
+        // supervisor mode (entered by exec from a run whose watchdog fired)
+        let code = core::supervise_isolated(&ctx, &file);
+        // minimal evidence of this run: the one case that was re-executed
+        let _ = ctx.meta.set((prop.rule, prop.assumptions));
+        ctx.note(format!("run was replaced by the isolated re-execution of {} after the watchdog fired (time or memory)", file.display()));
+        std::process::exit(code);
     }
     let _ = ctx.meta.set((prop.rule, prop.assumptions));
     core::start_watchdog(ctx.clone());
